@@ -50,11 +50,12 @@ fn direct(tr: &mut Trace) {
         let rot: Vec<usize> = (0..count).map(|i| (i + 1) % count).collect();
         for (mi, map) in [None, Some(rev), Some(rot)].into_iter().enumerate() {
             let mut slab = SymbolSlab::with_zeros(count, ss);
-            let base = slab.get(0).as_ptr() as usize;
             let phys = map.clone().unwrap_or_else(|| ident.clone());
             if let Some(m) = &map {
                 slab.set_reorder(m.clone());
             }
+            // start of the slab's storage as it is now (a reorder may be a mapping or a physical permutation): the lowest symbol address
+            let base = (0..count).map(|i| slab.get(i).as_ptr() as usize).min().unwrap();
             let mut calls = vec![];
             for dest in 0..count + 2 {
                 for src in 0..count + 2 {
